@@ -100,11 +100,12 @@ prop("C33",
 
 
 prop("C04",
-     units=["atomic", "modelatomic", "renamesheet", "cols", "rows"],
+     units=["atomic", "modelatomic", "renamesheet", "cols", "rows", "uisel"],
      scans=["history-writers"],
      level="proof",
-     claim="each user-model operation under contract (list in coverage.functions_under_contract) leaves engine state, undo/redo stacks and outgoing queue "
-           "unchanged when it returns Err and records exactly one entry when it returns Ok; Worksheet column/row setters: Err => descriptors unchanged",
+     claim="each user-model operation under contract (list in coverage.functions_under_contract: 25 operations incl. the bulk width/height/hidden setters and the "
+           "sheet operations) leaves engine state, undo/redo stacks and outgoing queue unchanged when it returns Err and records exactly one entry when it returns Ok; "
+           "Worksheet column/row setters: Err => descriptors unchanged; on_paste_styles validates its area before the first cell is styled",
      assumptions=["A-atomic: every Model method called by those operations either succeeds or leaves the engine unchanged (each stub is listed as an assumed contract)",
                   "D5: Model/Workbook are context shells with the touched fields + an opaque rest"],
      residual="atomicity inside the big Model functions (insert_rows failing half-way, paste, move_columns_action); operations not yet under contract")
@@ -132,12 +133,20 @@ prop("C21",
      assumptions=["A-chrono: NaiveDate::from_ymd_opt / num_days_from_ce / + Duration::days implement the proleptic Gregorian day count civil_days (external crate, shells in units/dates.rs)"],
      residual="WEEKDAY, the yyyy-mm-dd formatter/parser (string code), permissive DATE month/day wrapping (chrono Months/Days arithmetic)")
 prop("C28",
-     units=["select", "arms", "nav", "modelatomic"],
+     units=["select", "arms", "nav", "modelatomic", "uisel"],
+     scans=["selection-writers"],
      level="proof",
-     claim="the selected-sheet index after a sheet move (selected_sheet_after_move) or deletion (selected_sheet_after_delete) is an existing sheet, "
-           "follows the sheet by identity, and the move map is an invertible permutation (undo/redo re-select the same sheet)",
-     assumptions=["callers pass the pre-operation sheet count / indices (call sites in delete_sheet, MoveSheet arms are not under contract)"],
-     residual="hide/unhide search loop, undo of DuplicateSheet/NewSheet arms, keyboard navigation and range selection in ui.rs")
+     claim="invariant sel_inv (the selected sheet exists; in every worksheet view the selected cell and both range corners are on the grid and the cell lies "
+           "between the corners) is preserved by every writer of the selection: set_selected_sheet/cell/range (whole functions), the write steps of the four arrow keys, "
+           "page up/down, area selection, Ctrl+arrow, paste-styles; UserModel::delete_sheet, move_sheet, hide_sheet, new_sheet, duplicate_sheet, set_columns_hidden, "
+           "set_rows_hidden (whole functions, against Model::delete_sheet/move_sheet/set_sheet_state verified in the same file); the selected-sheet index maps of "
+           "move/delete follow the sheet by identity and are invertible; arrow-key targets stay on the grid; scan selection-writers: these are all the writers",
+     assumptions=["std_hash.rs: HashMap::get_mut behaves as documented (assumed specification)", "Workbook::worksheet/worksheet_mut index the sheet vector (stubs)",
+                  "fewer than 2^31 sheets; view_id == 0 (set by both constructors, never reassigned: scan)",
+                  "Model::new_sheet / duplicate_sheet hand back a sheet with on-grid views at the stated index (assumed stubs: string-heavy engine code)",
+                  "A-valid-ok for Model::set_column_hidden/set_row_hidden (proved one level down in cols/rows/delegates)",
+                  "page up/down: view.top_row within +-2^22; the f64 scroll arithmetic in front of the write steps is dropped (D2)"],
+     residual="on_expand_selected_range only through set_selected_range's contract; scroll position (top_row/left_column); undo/redo arms of NewSheet/DuplicateSheet beyond the fragments in unit arms")
 prop("C34",
      units=["f4"],
      level="proof",
